@@ -10,8 +10,9 @@ stored blocks, oldest first, ending in the head of the 2-chain, every one above 
 block has round watermark+1, or its parent is at or below the watermark); the watermark only grows.
 That the attachment point IS the previously delivered block, and that rounds grow along the chain —
 hence no duplicates and no skipped block over the whole life of the node — needs agreement among
-the honest nodes (certified blocks extend each other) and is proved in the global model: C01
-(`HS.C01.delivered_sequence_is_the_committed_chain`).
+the honest nodes (certified blocks extend each other: `HS.C01.agreement`, `Abs.certified_extends`).
+The composition of the two is not formalised yet; on the real code it is decided by the monitor of
+the cons/netsim engines (parent = previous delivery, rounds increase, no duplicates, no genesis).
 -/
 namespace HS.C02
 open HS Node
